@@ -17,6 +17,22 @@ PROPS = {'C02', 'C03', 'C13'}
 TWO_PI = 2 * math.pi
 TOL = Fr(1, 10 ** 9)
 MARGIN = Fr(1, 10 ** 6)
+F32 = False
+
+def is_f32(c, st=None):
+    """cases of the f32 build carry "f32": true (harness/src/quadric.rs); the stream flag says the same"""
+    return bool(c.get('f32') or (st is not None and getattr(st, 'f32', False)))
+
+def set_precision(f32):
+    """"up to rounding": 1e-9 for the f64 build (the property's own reading, 4.5e6 ulp64: it silently absorbs the conditioning of the
+    attached transform and the distance of the shape from the origin); 2^-13 = 1024 ulp32 for the f32 build, on scales that include
+    both explicitly (back_scale / cond_scale) and, for the on-ray test, the conditioning of the quadratic: a sphere of radius 0.01 placed
+    at 1000 has world coordinates known to 6e-5 only.  Measured on 30 000 f32 cases (seeds 1-3): with these scales no residual exceeds
+    2^-20 x scale (the first appears at 2^-21), so 2^-13 leaves a factor 128; the only flags at 2^-13 are the class
+    off-ray:f32-direction-box (2 cases, a consequence of finding F9 in single precision, see oracle_c02)."""
+    global TOL, F32
+    F32 = bool(f32)
+    TOL = Fr(1, 2 ** 13) if f32 else Fr(1, 10 ** 9)
 
 RULE = {
  'C02': ('stream C02quadric: per shape (sphere: new / new_partial / new_transformed / new_partial_transformed; cylinder: new / new_partial / '
@@ -41,7 +57,12 @@ ASSUMPTIONS = {
          'for non-zero boxes (every transformed shape: inv_transform_ray returns gamma_3 boxes) "on the quadric, inside the clips" only',
          '[pquadric] model = code: sphere3d.rs / cylinder3d.rs checked bit-for-bit on primitive floats given the constructed object\'s fields '
          '(read through the verif_fields hooks); libm-dependent outputs at 2^-40 / 2^-30, libm-dependent decisions only with margin > 1e-9',
-         '[pquadric] float vs exact evaluation is sampled by the exact-rational oracle at the property\'s tolerances, not proved'],
+         '[pquadric] float vs exact evaluation is sampled by the exact-rational oracle at the property\'s tolerances, not proved',
+         '[pquadric] f32 build (C02, thorough tier): the same runner text instantiated on the binary32 instance NumF32 (module Quadricf32 of Run/Quadric.v; executed as NumF32fast, proved equal in Run/FastNum32Proof.v) against the '
+         'harness built with --features float: bit for bit except downstream of libm (platform sinf / cosf / atan2f / acosf against the binary32 rounding of the software '
+         'libm: 2^-20 = 8 ulp32; sphere normals / dpdv 2^-12 outside the pole band |sin theta| <= 2^-8; placement matrices of Cylinder3D::new 2^-14; libm-dependent '
+         'decisions compared when the margin exceeds 2^-12); the C02 oracle then reads "up to rounding" as 2^-13 (1024 ulp32) on scales that include the '
+         'conditioning of the transform and the distance from the origin'],
  'C03': ['[pquadric] root-selection theorems hold for zero-width error boxes on the reals; "clearly" (the 1e-6 margins) is the float/real gap, sampled by the oracle',
          '[pquadric] guard of the theorems: direction not zero (sphere) / not parallel to the axis (cylinder), and the ray does not start on the quadric tangentially (0/0 in the code)'],
  'C13': ['[pquadric] sphere statements carry sin(theta) <> 0 (finding F8: the code divides by sin(theta) at the poles)',
@@ -62,12 +83,16 @@ def streams(prop, tier):
     name = STREAM[prop]
     if tier == 'quick': return [Stream(name, 1500)]
     if tier == 'search': return [Stream(name, 8000)]
-    return [Stream(name, 16000), Stream(name, 6000, release=True)]
+    out = [Stream(name, 16000), Stream(name, 6000, release=True)]
+    # the f32 build is in the quantifier of C02 only
+    if prop == 'C02': out.append(Stream(name, 1000, f32=True))
+    return out
 
 # ------------------------------------------------------------------ decoding
 
 def fl(c, key):
-    return [f64(b) for b in c[key]]
+    fm = Fmt(is_f32(c))
+    return [fm.fl(b) for b in c[key]]
 
 SHAPE = ['sphere', 'cylinder']
 
@@ -80,7 +105,7 @@ def classify(prop, c, st):
 
 def describe(prop, c, st):
     d = dict(part='pquadric', shape=SHAPE[c['shape']], variant=c['variant'], op=c['op'], args=[hexf(x) for x in fl(c, 'args')],
-             chain=[[e[0], [hexf(f64(b)) for b in e[1]]] for e in c['chain']], res=c['res'])
+             chain=[[e[0], [hexf(Fmt(is_f32(c)).fl(b)) for b in e[1]]] for e in c['chain']], res=c['res'])
     if c['op']:
         d.update(ray=[hexf(x) for x in fl(c, 'ray')], out=[hexf(x) for x in fl(c, 'out')])
     return d
@@ -165,7 +190,7 @@ def geom(c, actual_transform=False):
         g.size = g.r
         if v in (0, 1):
             ce = a[1:4]
-            if all(abs(x) < 100 * 2.0 ** -52 for x in ce): g.M = ident()
+            if all(abs(x) < 100 * (2.0 ** -23 if is_f32(c) else 2.0 ** -52) for x in ce): g.M = ident()
             else: g.M = [[Fr(int(r == k)) for k in range(3)] + [Fr(ce[r])] for r in range(3)]
         else:
             g.M = mat_of(tr) if tr else ident()
@@ -196,6 +221,17 @@ def to_local_pt(g, P): return lin(g.Minv, [P[k] - g.M[k][3] for k in range(3)])
 def to_local_vec(g, d): return lin(g.Minv, d)
 def world_size(g):
     return g.size * max(sum(abs(g.M[r][k]) for k in range(3)) for r in range(3))
+
+def back_scale(g, P):
+    """magnitude of the local image of a world point: |M^-1| (|P| + |translation|) -- what the rounding of P is multiplied by
+    when the exact inverse maps it back to the shape's frame"""
+    return max(sum(abs(g.Minv[r][k]) * (abs(P[k]) + abs(g.M[k][3])) for k in range(3)) for r in range(3))
+
+def cond_scale(g, o, d, t):
+    """|M| (|M^-1| (|o| + |translation|) + |t| |M^-1| |d|) + |translation|: first-order magnitude of what the crate computes for
+    the world ray (o, d) at parameter t"""
+    L = [sum(abs(g.Minv[r][k]) * (abs(o[k]) + abs(g.M[k][3]) + abs(t) * abs(d[k])) for k in range(3)) for r in range(3)]
+    return max(sum(abs(g.M[r][k]) * L[k] for k in range(3)) + abs(g.M[r][3]) for r in range(3))
 
 def phi_of(x, y):
     p = math.atan2(float(y), float(x))
@@ -247,16 +283,23 @@ def oracle_c02(c):
     o, d, ol, dl = rr
     P = [Fr(x) for x in out[:3]]
     p = P if c['op'] in LOCAL_OPS else to_local_pt(g, P)
+    # f64: the radius (resp. the size) is the scale of "up to rounding"; f32: also the magnitude of the local image of the
+    # reported world point (its coordinates carry a relative rounding of 2^-24 each, whatever the size of the shape)
+    rs = max(g.r, back_scale(g, P)) if (F32 and c['op'] not in LOCAL_OPS) else g.r
+    zs = max(g.size, rs) if F32 else g.size
     # on the quadric, within 1e-9 relative (on the radius)
     q = quad_form(g, p)
-    if abs(q) > 2 * TOL * g.r * g.r * (1 + TOL):
+    if abs(q) > 2 * TOL * g.r * rs * (1 + TOL):
         return ('C02:quadric:%s:off-surface' % sh, 'reported point is off the %s by %.3e (relative, squared radius)' % (sh, float(q / (g.r * g.r))))
     # inside the clips
-    if p[2] < g.zlo - TOL * g.size or p[2] > g.zhi + TOL * g.size:
+    if p[2] < g.zlo - TOL * zs or p[2] > g.zhi + TOL * zs:
         return ('C02:quadric:%s:outside-z-clip' % sh, 'z = %r outside [%r, %r]' % (float(p[2]), float(g.zlo), float(g.zhi)))
-    if not g.full and p[0] * p[0] + p[1] * p[1] > (MARGIN * g.r) ** 2:
+    rho2 = p[0] * p[0] + p[1] * p[1]
+    if not g.full and rho2 > ((Fr(1, 100) if F32 else MARGIN) * g.r) ** 2:
         ph = phi_of(p[0], p[1])
-        if ph > g.phimax + 1e-9 and ph < TWO_PI - 1e-9:
+        # angular slack: 1e-9 rad (f64); f32: the rounding of the point seen from the axis, plus 8 ulp32 of an angle up to 2 pi
+        slack = 1e-9 if not F32 else float(TOL * rs) / float(rho2) ** 0.5 + 2.0 ** -18
+        if ph > g.phimax + slack and ph < TWO_PI - slack:
             return ('C02:quadric:%s:outside-phi-clip' % sh, 'phi = %r > phi_max = %r' % (ph, g.phimax))
     # on the ray, ahead of the origin (zero error boxes only: with boxes the "ray" is a family of rays)
     if c['op'] in LOCAL_OPS and (any(b != 0 and b != 1 << 63 for b in c['oe']) or any(b != 0 and b != 1 << 63 for b in c['de'])): return None
@@ -264,10 +307,35 @@ def oracle_c02(c):
     if dd == 0: return ('C02:quadric:%s:off-ray' % sh, 'hit reported for a zero direction')
     w = sub(P, o); t = dot(w, d) / dd
     scale = max(amax(o), amax(P), world_size(g) if c['op'] in (3, 4) else g.size)
-    if t <= 0:
+    if F32:
+        if c['op'] in (3, 4): scale = max(scale, cond_scale(g, o, d, t))
+        # conditioning of the quadratic itself: a t^2 + b t + c = 0 with discriminant D; the rounding of D moves the root by
+        # (b^2 + 4|ac|) / (4 a sqrt D) ulps, i.e. the point by about |o|^2 / chord ulps (an origin 3e4 away from a cylinder of radius 60:
+        # 2e9 / 100 * 6e-8 = 1.2).  The crate re-projects the point onto the surface, so this shows as a displacement ALONG the
+        # surface, off the ray.  A (nearly) tangent ray has no bound: not judged.
+        a = n2(dl) if g.shape == 0 else dl[0] * dl[0] + dl[1] * dl[1]
+        b = 2 * (dot(ol, dl) if g.shape == 0 else ol[0] * dl[0] + ol[1] * dl[1])
+        cq = quad_form(g, ol)
+        D = b * b - 4 * a * cq
+        if a == 0 or D <= 0: return None
+        qs = (b * b + 4 * abs(a * cq)) * fsqrt(n2(dl), 20) / (4 * a * fsqrt(D, 20))
+        normM = max(sum(abs(g.M[r][k]) for k in range(3)) for r in range(3)) if c['op'] in (3, 4) else 1
+        scale = max(scale, normM * qs)
+    # f32: a genuine crossing so close to the origin that o + t d rounds back onto (or a hair behind) o is rounding, not a hit behind the origin
+    if t <= 0 and not (F32 and t * t * dd <= (TOL * scale) ** 2):
         return ('C02:quadric:%s:behind-origin' % sh, 'parameter of the reported point on the ray = %r' % float(t))
     dist2 = n2(w) - t * t * dd
     if dist2 > (TOL * scale) ** 2:
+        if F32 and c['op'] in (3, 4):
+            # f32 consequence of finding F9 (the translation column is added to the error box of a transformed DIRECTION): the box
+            # gamma_3 |M^-1 translation| is relative to 1, not to |d|; for a short direction behind a large translation the interval
+            # of the root is several percent wide and its midpoint -- the reported distance -- is biased by the square of that
+            g3 = Fr(3, 2 ** 24) / (1 - Fr(3, 2 ** 24))
+            box = max(g3 * (sum(abs(g.Minv[r][k] * d[k]) for k in range(3)) + abs(sum(g.Minv[r][k] * g.M[k][3] for k in range(3)))) for r in range(3))
+            if box * box > TOL * TOL * n2(dl):
+                return ('C02:quadric:%s:off-ray:f32-direction-box' % sh,
+                        'reported point is %.3e off the ray line (scale %.3e): the error box of the local direction, %.3e, is %.2e of its length (translation column included, F9)'
+                        % (math.sqrt(float(dist2)), float(scale), float(box), float(box) / math.sqrt(float(n2(dl)))))
         if in_pole_band(g, p):
             return ('C02:quadric:sphere:pole-fixup-off-ray', 'hit within 1e-5 r of a pole is moved to x = 1e-5 r: %.3e off the ray (scale %.3e)' % (math.sqrt(float(dist2)), float(scale)))
         return ('C02:quadric:%s:off-ray' % sh, 'reported point is %.3e off the ray line (scale %.3e)' % (math.sqrt(float(dist2)), float(scale)))
@@ -415,7 +483,7 @@ def oracle_c13(c):
     # paired rays: same surface point from the other side -> other side, opposite normal
     m = c.get('mate')
     if m and m['res'] == 'some' and not pole:
-        mo = [f64(b) for b in m['out']]
+        mo = [Fmt(is_f32(c)).fl(b) for b in m['out']]
         if all(finite(x) for x in mo[:7]):
             scale = max(amax(P), world_size(g) if c['op'] == 3 else g.size)
             if amax(sub(P, [Fr(x) for x in mo[:3]])) <= MARGIN * scale and mo[6] != 2.0:
@@ -442,6 +510,7 @@ def oracle(prop, c, st):
     # 5 bounds / area, 7 intersection_info called on its own, 8 world_bounds / centre: model correspondence only
     # (6 = simple_intersect_local_ray reports a hit point: judged like op 1)
     if c['op'] > 4 and c['op'] != 6: return None
+    set_precision(is_f32(c, st))
     try:
         if prop == 'C02': return oracle_c02(c)
         if prop == 'C03': return oracle_c03(c)
